@@ -44,8 +44,9 @@ fn child_run(args: &[String]) -> i32 {
     exec::set_backend(&beh.cfg);
     exec::start_watchdog(30, out.clone());
     verif::count_this_thread(true);
+    let dump_io = arg_val(args, "--dump-io");
     if at == 0 {
-        verif::set_recording(true, false);
+        verif::set_recording(true, dump_io.is_some());
     } else {
         verif::set_crash_at(at, mask);
     }
@@ -62,6 +63,8 @@ fn child_run(args: &[String]) -> i32 {
         }
     }
     append_lines(&out, &[json!({"ev":"note","what":"opdone"}).to_string()]);
+    let _ = run.drain_io();
+    let mut marks: Vec<usize> = vec![run.io_log_all.len()];
     for op in beh.ops.iter() {
         if run.dead {
             break;
@@ -71,6 +74,20 @@ fn child_run(args: &[String]) -> i32 {
         run.emit(json!({"ev":"note","what":"opdone"}));
         let lines = std::mem::take(&mut run.lines);
         append_lines(&out, &lines);
+        if at == 0 {
+            let _ = run.drain_io();
+            marks.push(run.io_log_all.len());
+        }
+    }
+    if let (0, Some(path)) = (at, dump_io.as_ref()) {
+        // full I/O log with data (power-loss reconstruction), positions after each operation
+        let _ = run.drain_io();
+        let evs: Vec<Value> = run.io_log_all.iter().map(|r| {
+            let hex: String = r.data.as_ref().map(|d| d.iter().map(|b| format!("{:02x}", b)).collect()).unwrap_or_default();
+            json!({"seq": r.seq, "kind": r.kind, "path": r.path, "path2": r.path2, "off": r.off, "len": r.len,
+                   "data": hex, "has_data": r.data.is_some(), "counted": r.counted})
+        }).collect();
+        std::fs::write(path, serde_json::to_vec(&json!({"events": evs, "marks": marks})).unwrap()).unwrap();
     }
     if at == 0 {
         // dry run: report the numbered events
